@@ -178,7 +178,7 @@ func (f *File) eval(e ast.Expr, locals map[string]ast.Expr, depth int) (constant
 		return f.eval(e.X, locals, depth+1)
 	case *ast.BasicLit:
 		switch e.Kind {
-		case token.INT, token.CHAR, token.STRING:
+		case token.INT, token.CHAR, token.STRING, token.FLOAT:
 			v := constant.MakeFromLiteral(e.Value, e.Kind, 0)
 			if v.Kind() == constant.Unknown {
 				return nil, fmt.Errorf("%s: bad literal %s", f.Pos(e), e.Value)
@@ -268,6 +268,9 @@ func (f *File) MustInt(e ast.Expr, locals map[string]ast.Expr, what string) int6
 	v, err := f.Eval(e, locals)
 	if err != nil {
 		Die("%s: %s is not a constant integer: %v", f.Label, what, err)
+	}
+	if v.Kind() == constant.Float { // 1e9 is an untyped float constant with an integer value
+		v = constant.ToInt(v)
 	}
 	if v.Kind() != constant.Int {
 		Die("%s: %s is not a constant integer (%s)", f.Label, what, Str(e))
